@@ -75,7 +75,7 @@ func ghostLevelSorted(ll *LevelList, i int) bool {
 //@   ensures result == ghostInRange(t, key)
 
 //@ func Table.RangeKeyCompare
-//@   property C07
+//@   property C07 C18
 //@   modifies nothing
 //@   ensures bytes.Compare(t.startKey, key) > 0 ==> result == 1
 //@   ensures bytes.Compare(t.startKey, key) <= 0 && bytes.Compare(t.endKey, key) < 0 ==> result == -1
@@ -504,7 +504,7 @@ var ghostLevelOf func(ll *LevelList, t *Table) int
 // The file number of a new table is reserved atomically BEFORE the file is created (flush and
 // compaction share the writer: a number read first and incremented after the save is handed out twice).
 //@ func TableWriter.Write
-//@   property C18 C17
+//@   property C18 C17 C09
 //@   nosafety
 //@   order New after Add
 //@   atcall Load: false
